@@ -5,11 +5,68 @@ from .core import Engine, State, Opaque, Unsupported
 from .prog import short
 
 
+def has_ref(prog, tid, seen=None):
+    """does a value of this type carry a reference through which memory could be written?"""
+    seen = seen or set()
+    if tid in seen:
+        return False
+    seen.add(tid)
+    u = prog.under(tid)
+    k = u["k"]
+    if k in ("ptr", "slice", "map", "chan", "func", "iface"):
+        return True
+    if k == "struct":
+        return any(has_ref(prog, f["t"], seen) for f in u["fields"])
+    if k == "array":
+        return has_ref(prog, u["elem"], seen)
+    return False
+
+
+def init_only_functions(prog):
+    """functions that can only run during package initialisation: pkg.init, init#N and unexported plain functions
+    whose every static caller is init-only and that are never used as a value"""
+    callers = {}
+    used_as_value = set()
+    for f in prog.funcs.values():
+        for b in f.blocks:
+            for ins in b["instrs"]:
+                if ins["op"] in ("Call", "Defer", "Go"):
+                    c = ins["call"]
+                    if c.get("static"):
+                        callers.setdefault(c["static"], set()).add(f.name)
+                    for a in c["args"]:
+                        if a and a.get("k") == "func":
+                            used_as_value.add(a["n"])
+                elif ins["op"] == "MakeClosure":
+                    callers.setdefault(ins["fn"], set()).add(f.name)
+                else:
+                    for key in ("x", "val", "y"):
+                        v = ins.get(key)
+                        if isinstance(v, dict) and v.get("k") == "func":
+                            used_as_value.add(v["n"])
+    io = {f.name for f in prog.funcs.values() if f.short.endswith(".init") or ".init#" in f.short}
+    changed = True
+    while changed:
+        changed = False
+        for f in prog.funcs.values():
+            if f.name in io or f.name in used_as_value or not f.blocks:
+                continue
+            nm = f.d["short"]
+            if f.d.get("hasrecv") or nm[:1].isupper():
+                continue
+            cs = callers.get(f.name)
+            if cs and all(c in io for c in cs):
+                io.add(f.name)
+                changed = True
+    return io
+
+
 def mutable_globals(prog):
     """global short names that may be stored to outside their package's init (conservative taint scan)"""
     mut = {}
+    io = init_only_functions(prog)
     for f in prog.funcs.values():
-        if not f.blocks or f.short.endswith(".init"):
+        if not f.blocks or f.name in io:
             continue
         taint = {}
         changed = True
@@ -34,8 +91,7 @@ def mutable_globals(prog):
                 elif op == "UnOp" and ins["uop"] == "*":
                     src = tv(ins["x"])
                     # loading a scalar out of a global ends the taint
-                    k = prog.kind(ins["t"])
-                    if k in ("basic",):
+                    if not has_ref(prog, ins["t"]):
                         src = None
                 elif op == "Phi":
                     for e in ins["edges"]:
